@@ -1,6 +1,7 @@
 SPECIFICATION Spec
 CONSTANTS
   MaxList = 3
+  MaxList2 = 2
   Payloads = {0, 1, 33, 1500}
   StackPayloads = {0, 33}
 INVARIANTS LawsAcceptIdeal LawsRejectWrong Export
